@@ -6,5 +6,9 @@ PY=/venv/bin/python
 if ! PYTHONPATH=/verif/.deps "$PY" -c "import hypothesis" 2>/dev/null; then
   "$PY" -m pip install --no-index --find-links /opt/veriftools/wheels --target /verif/.deps hypothesis || exit 2
 fi
+# optional: atheris for the coverage-guided stage of some checks (skipped, and recorded as skipped, when unavailable)
+if ! PYTHONPATH=/verif/.deps "$PY" -c "import atheris" 2>/dev/null; then
+  "$PY" -m pip install --no-index --find-links /opt/veriftools/wheels --target /verif/.deps atheris >/dev/null 2>&1 || echo "setup: atheris not installed (coverage-guided stage will be skipped)"
+fi
 PYTHONPATH=/verif/.deps "$PY" -c "import hypothesis, numpy, scipy, sympy; print('setup ok: hypothesis', hypothesis.__version__)" || exit 2
 mkdir -p evidence
